@@ -104,7 +104,48 @@ func relPath(f string) string {
 	return strings.TrimPrefix(f, "/repo/")
 }
 
+// splitAnd returns the conjuncts of a top-level (and ...) term, flattened.
+func splitAnd(t string) []string {
+	if !strings.HasPrefix(t, "(and ") || !strings.HasSuffix(t, ")") {
+		return []string{t}
+	}
+	body := t[5 : len(t)-1]
+	var parts []string
+	depth, start := 0, 0
+	inBar := false
+	for i := 0; i < len(body); i++ {
+		switch c := body[i]; {
+		case c == '|':
+			inBar = !inBar
+		case inBar:
+		case c == '(':
+			depth++
+		case c == ')':
+			depth--
+		case c == ' ' && depth == 0:
+			if i > start {
+				parts = append(parts, body[start:i])
+			}
+			start = i + 1
+		}
+	}
+	if start < len(body) {
+		parts = append(parts, body[start:])
+	}
+	var out []string
+	for _, p := range parts {
+		out = append(out, splitAnd(p)...)
+	}
+	return out
+}
+
+// oblige records a proof obligation; conjunctions are split into one
+// obligation per conjunct (each later conjunct may use the earlier ones).
 func (fe *FuncEnc) oblige(st *State, kind, label, goal string, pos token.Pos, descr string) {
+	fe.oblige1(st, kind, label, goal, pos, descr)
+}
+
+func (fe *FuncEnc) oblige1(st *State, kind, label, goal string, pos token.Pos, descr string) {
 	if fe.recording || goal == "true" {
 		if !fe.recording && goal == "true" {
 			fe.trivial++
@@ -419,7 +460,16 @@ func (fe *FuncEnc) typeFacts(st *State, term string, t types.Type) string {
 		case types.Int32:
 			return fmt.Sprintf("(and (<= (- 2147483648) %s) (< %s 2147483648))", term, term)
 		}
-	case *types.Pointer, *types.Map:
+	case *types.Pointer:
+		f := fmt.Sprintf("(and (<= 0 (hv_base %s)) (<= (hv_base %s) %s))", term, term, st.allocTop)
+		if _, isStruct := u.Elem().Underlying().(*types.Struct); isStruct {
+			if _, named := u.Elem().(*types.Named); named {
+				// a non-nil *T refers to an object of dynamic type T
+				f = and(f, fmt.Sprintf("(=> (not (= %s 0)) (= (hv_rtype %s) %d))", term, term, fe.sorts().typeID(u.Elem())))
+			}
+		}
+		return f
+	case *types.Map:
 		return fmt.Sprintf("(and (<= 0 (hv_base %s)) (<= (hv_base %s) %s))", term, term, st.allocTop)
 	case *types.Slice:
 		return fmt.Sprintf("(and (<= 0 (hv_offs (hv_org %s))) (<= 0 (hv_len %s)) (<= (hv_len %s) (hv_cap %s)) (<= 0 (hv_base (hv_org %s))) (<= (hv_base (hv_org %s)) %s) (=> (= (hv_org %s) 0) (= (hv_cap %s) 0)))", term, term, term, term, term, term, st.allocTop, term, term)
